@@ -240,7 +240,7 @@ def vc_polarity(H):
                 ctx.oblige('post: pss*pss == -1  ->  (-x) * pss', z3.Implies(z3.And(z3.Not(sq.z), sq.n), is_negx))
                 ctx.oblige('post: ZeroDivisionError  <=>  pss*pss == 0', sq.z == z3.BoolVal(raised is not None))
             if raised is not None:
-                raise raised
+                ctx.notes.append('expected-raise'); raise raised
             return r
         H.run_paths(fuc, '', body)
 
@@ -328,7 +328,7 @@ def vc_inv_div_structure(H):
             if zero:
                 ctx.oblige('identically zero denominator raises ZeroDivisionError', raised is not None)
                 if raised:
-                    raise raised
+                    ctx.notes.append('expected-raise'); raise raised
                 return r
             ok = raised is None and isinstance(r, tuple) and r[0] == 'LambdifyInput'
             ctx.oblige('returns a LambdifyInput', bool(ok))
